@@ -1848,7 +1848,8 @@ def _read_reader_macro(ctx: ReaderContext) -> LispReaderForm:
         return read_macro(ctx)
     elif begin_ns_name_chars.match(char):
         s = _read_sym(ctx, is_reader_macro_sym=True)
-        assert isinstance(s, sym.Symbol)
+        if not isinstance(s, sym.Symbol):
+            raise ctx.syntax_error(f"Expected a symbol as a reader tag, got '{s}'")
         if s.ns is None:
             if s.name == "b":
                 return _read_byte_str(ctx)
